@@ -119,4 +119,10 @@ func c06(r *ev.Result, tier string) {
 	tells simultaneous clients apart is written and read by concurrent
 	calls. */
 	brokerRacePass(r)
+	/* A long series of foreign requests next to a half-attached one. */
+	if isQuick(tier) {
+		c06Spray(r, 150000)
+	} else {
+		c06Spray(r, 1200000)
+	}
 }
